@@ -1,4 +1,4 @@
-//! mode `codec`:  enc <frame> | dec <hex> | crc <hex> | size <datagram>
+//! mode `codec`:  enc <frame> | rt <frame> | dec <hex> | flip <hex> <p1,p2,..> | crc <hex> | size <datagram>
 
 use uflow::verif::frame::*;
 use crate::{util, text, Machine};
@@ -25,6 +25,33 @@ impl Machine for CodecMachine {
                         Some(f) => text::fmt_frame(&f),
                         None => String::from("none"),
                     },
+                    _ => String::from("bad-op"),
+                }
+            }
+            Some("rt") => {
+                // encode, then decode what was encoded
+                match text::parse_frame(&mut t) {
+                    Some(f) if t.done() => match Frame::read(&f.write()) {
+                        Some(g) => text::fmt_frame(&g),
+                        None => String::from("none"),
+                    },
+                    _ => String::from("bad-op"),
+                }
+            }
+            Some("flip") => {
+                // flip <hex> <p1,p2,..>: decode after flipping the given bit positions (bit p%8 of byte p/8)
+                let bytes = t.next().and_then(util::unhex);
+                let pos = t.next().map(|s| s.split(',').map(|x| x.parse::<usize>().ok()).collect::<Option<Vec<_>>>());
+                match (bytes, pos) {
+                    (Some(mut bytes), Some(Some(pos))) if t.done() && pos.iter().all(|&p| p / 8 < bytes.len()) => {
+                        for p in pos {
+                            bytes[p / 8] ^= 1 << (p % 8);
+                        }
+                        match Frame::read(&bytes) {
+                            Some(f) => text::fmt_frame(&f),
+                            None => String::from("none"),
+                        }
+                    }
                     _ => String::from("bad-op"),
                 }
             }
